@@ -7,6 +7,8 @@ import (
 	"context"
 	"fmt"
 	"net"
+	"os"
+	"runtime"
 	"strings"
 	"testing"
 	"time"
@@ -63,6 +65,7 @@ type subject struct {
 	qcs    []hotstuff.QuorumCert
 	agg    bool
 	scheme string
+	cmdSeq uint64
 }
 
 func newSubject(n int, scheme string, cache uint, agg bool, state string, rng *vbase.Rng) *subject {
@@ -142,8 +145,26 @@ func (s *subject) drainK() (pan any, site string) {
 	return
 }
 
+// topUp keeps enough fresh commands cached so that a proposal by the subject never blocks the harness thread.
+func (s *subject) topUp() {
+	for tries := 0; tries < 100; tries++ {
+		fresh, token, markers, ok := vk.CmdCacheFresh(s.node.Cmds)
+		if !ok || (fresh >= 8 && token) {
+			return
+		}
+		s.cmdSeq++
+		seq := s.cmdSeq
+		if seq <= markers[4242] {
+			seq = markers[4242] + 1
+			s.cmdSeq = seq
+		}
+		s.node.Cmds.Add(&clientpb.Command{ClientID: 4242, SequenceNumber: seq, Data: []byte{byte(seq)}})
+	}
+}
+
 // call sends one wire message through the real handler and drains the event loop, all under recover.
 func (s *subject) call(kind string, from hotstuff.ID, msg proto.Message) (pan any, site string) {
+	s.topUp()
 	defer func() {
 		if e := recover(); e != nil {
 			pan, site = e, vk.StackSite()
@@ -439,7 +460,7 @@ func hashOf(b *hotstuff.Block) []byte { h := b.Hash(); return h[:] }
 func verifWire(p vbase.Params, r *vbase.Result) {
 	r.Rule = "structure-aware fault enumeration of the Consensus and Kauri wire messages (Proposal, PartialCert, SyncInfo, TimeoutMsg, BlockHash, Contribution): cross product of field states - every optional sub-message absent / empty / " +
 		"valid; signatures absent / empty oneof / valid / valid-for-another-message / random / truncated / wrong scheme / empty list / nil entry / signer 0, non-member, huge / BLS garbage, empty, infinity; views 0, cur-1, cur, cur+1, 2^64-1; " +
-		"hashes genesis / known / unknown / zero / short / long / empty - each marshalled, unmarshalled and passed to the REAL serviceImpl handler with a peer context, then the event loop is drained, all under recover; replica states " +
+		"hashes genesis / known / unknown / zero / short / long / empty - each marshalled, unmarshalled and passed to the REAL serviceImpl handler with a peer context (messages in which nothing verifies are delivered three times, the third time from another peer), then the event loop is drained, all under recover; replica states " +
 		"fresh / mid-run / just timed out x schemes x cache on/off x simple and aggregate timeout rule; oracles: no panic; messages in which nothing verifies leave (view, high QC, high TC, committed block, lock, last voted view, number of own signatures) unchanged; " +
 		"non-trivial: message with >= 1 non-default field; distinct: (state, scheme, cache, rule, message shape)"
 	idx := 0
@@ -477,7 +498,18 @@ func verifWire(p vbase.Params, r *vbase.Result) {
 						}
 						c := cases[k]
 						before := subj.node.StateTuple()
+						tag0 := fmt.Sprintf("%s/%s/cache=%d/agg=%v/%s", state, scheme, cache, agg, c.name)
+						stop := watch(p, r, tag0, c.kind)
 						pan, site := subj.call(c.kind, 3, c.msg)
+						if pan == nil && !c.valid {
+							// a peer may send the same bytes again: a replay of input in which nothing verifies must not get through either
+							pan, site = subj.call(c.kind, 3, c.msg)
+							if pan == nil {
+								pan, site = subj.call(c.kind, 2, c.msg)
+							}
+							r.Obs("replayed_deliveries", 2)
+						}
+						stop()
 						after := subj.node.StateTuple()
 						tag := fmt.Sprintf("%s/%s/cache=%d/agg=%v/%s", state, scheme, cache, agg, c.name)
 						r.Eval(c.name != "proposal-empty", tag)
@@ -505,6 +537,36 @@ func verifWire(p vbase.Params, r *vbase.Result) {
 			}
 		}
 	}
+}
+
+// watch is a watchdog around one delivery: a handler that does not return within 30 s (no blocking call is
+// involved: commands are available and verification is synchronous) means the replica's event loop thread is
+// stuck; the site is reported and the shard ends, because the stuck goroutine cannot be recovered.
+func watch(p vbase.Params, r *vbase.Result, tag, kind string) (stop func()) {
+	done := make(chan struct{})
+	go func() {
+		t := time.NewTimer(30 * time.Second)
+		defer t.Stop()
+		select {
+		case <-done:
+		case <-t.C:
+			buf := make([]byte, 1<<16)
+			buf = buf[:runtime.Stack(buf, true)]
+			site := "unknown"
+			lines := strings.Split(string(buf), "\n")
+			for i := 0; i+1 < len(lines); i++ {
+				ln := lines[i]
+				if strings.HasPrefix(ln, "github.com/relab/hotstuff") && !strings.Contains(lines[i+1], "zz_verif") && !strings.Contains(lines[i+1], "/verif/") && !strings.Contains(ln, "Synchronizer).Start") {
+					site = strings.TrimPrefix(ln[:strings.LastIndex(ln, "(")], "github.com/relab/hotstuff/")
+					break
+				}
+			}
+			r.Violate(vbase.Sig("handler-stuck", "msg", kind, "site", site), fmt.Sprintf("a %s message keeps the replica's event loop thread busy for more than 30 s in %s (%s)", kind, site, tag), map[string]any{"message": tag})
+			_ = r.Write(p.Out)
+			os.Exit(0)
+		}
+	}()
+	return func() { close(done) }
 }
 
 func mustMarshal(m proto.Message) []byte {
